@@ -9,21 +9,35 @@
 (* JSON encode/decode fidelity itself is encoding/json's (uninterpreted here): a document is  *)
 (* a shape id, "valid" is a predicate supplied per (document, target).                        *)
 EXTENDS Integers, Sequences, FiniteSets, TLC
-CONSTANTS Conns, MaxOps, Dev           \* Dev \subseteq {"ResultAliasesBuffer"}
+CONSTANTS Conns, MaxOps, Dev           \* Dev \subseteq {"ResultAliasesBuffer", "WriterKeepsFailedValue"}
 Docs == {"good", "badsyntax", "truncated", "twovalues", "wrongtype"}
 VARIABLES inq,      \* [Conns -> Seq(Docs)] text messages waiting to be read
-          out,      \* [Conns -> Seq("text")] messages written
+          out,      \* [Conns -> Seq([t |-> "text", vals |-> the values encoded in the message, w |-> the Write call it came from])]
+          residue,  \* encoded values left behind in a (process-wide, pooled) encoder by Write calls that failed: Dev only
+          nw,       \* Write calls so far (each call writes value number nw)
           bufOwner, \* "pool" or the connection whose Read currently borrows the single pooled buffer
           results,  \* set of [conn, aliases] records: decoded values still held by the application
           closed, wrote1007, nops
-vars == <<inq, out, bufOwner, results, closed, wrote1007, nops>>
-Init == /\ inq = [c \in Conns |-> <<>>] /\ out = [c \in Conns |-> <<>>] /\ bufOwner = "pool" /\ results = {}
+vars == <<inq, out, residue, nw, bufOwner, results, closed, wrote1007, nops>>
+Init == /\ inq = [c \in Conns |-> <<>>] /\ out = [c \in Conns |-> <<>>] /\ residue = <<>> /\ nw = 0 /\ bufOwner = "pool" /\ results = {}
         /\ closed = [c \in Conns |-> FALSE] /\ wrote1007 = [c \in Conns |-> FALSE] /\ nops = 0
 Tick == nops < MaxOps /\ nops' = nops + 1
 PeerSend(c, d) == /\ Tick /\ ~closed[c] /\ Len(inq[c]) < 2 /\ inq' = [inq EXCEPT ![c] = Append(inq[c], d)]
-                  /\ UNCHANGED <<out, bufOwner, results, closed, wrote1007>>
-JsonWrite(c) == /\ Tick /\ ~closed[c] /\ out' = [out EXCEPT ![c] = Append(out[c], "text")]
+                  /\ UNCHANGED <<out, residue, nw, bufOwner, results, closed, wrote1007>>
+(* Write(v) on an open connection: one text message with v and nothing else.  On a closed connection (or with a context that is    *)
+(* done) the call fails and nothing is written -- and nothing of v may survive the call: Dev "WriterKeepsFailedValue" encodes into *)
+(* a pooled encoder that is only emptied after a successful write, so the next Write anywhere sends the lost value in front of its *)
+(* own                                                                                                                              *)
+JsonWrite(c) == /\ Tick /\ nw' = nw + 1
+                /\ IF closed[c]
+                     THEN /\ residue' = IF "WriterKeepsFailedValue" \in Dev THEN Append(residue, nw + 1) ELSE residue
+                          /\ UNCHANGED out
+                     ELSE /\ out' = [out EXCEPT ![c] = Append(out[c], [t |-> "text", vals |-> Append(residue, nw + 1), w |-> nw + 1])]
+                          /\ residue' = <<>>
                 /\ UNCHANGED <<inq, bufOwner, results, closed, wrote1007>>
+(* the application closes a connection (so that later writes on it fail) *)
+AppClose(c) == /\ Tick /\ ~closed[c] /\ closed' = [closed EXCEPT ![c] = TRUE]
+               /\ UNCHANGED <<inq, out, residue, nw, bufOwner, results, wrote1007>>
 (* Read is atomic with respect to the pool: borrow, fill from exactly one message, decode, return the buffer *)
 JsonRead(c) == /\ Tick /\ ~closed[c] /\ inq[c] # <<>> /\ bufOwner = "pool"
                /\ LET d == Head(inq[c]) IN
@@ -33,11 +47,13 @@ JsonRead(c) == /\ Tick /\ ~closed[c] /\ inq[c] # <<>> /\ bufOwner = "pool"
                             /\ UNCHANGED <<closed, wrote1007>>
                        ELSE /\ closed' = [closed EXCEPT ![c] = TRUE] /\ wrote1007' = [wrote1007 EXCEPT ![c] = TRUE]
                             /\ UNCHANGED results
-               /\ UNCHANGED <<out, bufOwner>>
-Next == \E c \in Conns : JsonWrite(c) \/ JsonRead(c) \/ \E d \in Docs : PeerSend(c, d)
+               /\ UNCHANGED <<out, residue, nw, bufOwner>>
+Next == \E c \in Conns : JsonWrite(c) \/ JsonRead(c) \/ AppClose(c) \/ \E d \in Docs : PeerSend(c, d)
 Spec == Init /\ [][Next]_vars
 (* no decoded result refers to the pooled buffer, which the next Read on any connection overwrites *)
 NoAliasAfterPut == \A r \in results : ~r.aliases
 BadDocCloses1007 == \A c \in Conns : wrote1007[c] => closed[c]
-OnlyTextWritten == \A c \in Conns : \A i \in 1..Len(out[c]) : out[c][i] = "text"
+OnlyTextWritten == \A c \in Conns : \A i \in 1..Len(out[c]) : out[c][i].t = "text"
+(* "sends the JSON encoding of a value as exactly one text message": the message of a Write holds that call's value and no other *)
+OneValuePerMessage == \A c \in Conns : \A i \in 1..Len(out[c]) : out[c][i].vals = <<out[c][i].w>>
 =============================================================================
